@@ -152,7 +152,16 @@ class SimTransport:
             self.peer.eof_reason = tierror.ConnectionDone()
 
     def abortConnection(self):
-        self.loseConnection()
+        # as Twisted's: reading stops, connectionLost(ConnectionAborted) comes from a later
+        # reactor iteration - and `disconnecting` is NOT set
+        if self.state != OPEN:
+            return
+        self.state = CLOSING
+        self.own_reason = tierror.ConnectionAborted()
+        self.sim.log('abort', self.name)
+        if self.peer is not None and not self.peer.eof:
+            self.peer.eof = True
+            self.peer.eof_reason = tierror.ConnectionDone()
 
     def sendFileDescriptor(self, fd):
         self.pending_fds.append(fd)
@@ -351,6 +360,9 @@ class SimReactor:
         return self.sim.now
 
     def callLater(self, delay, f, *a, **kw):
+        # as ReactorBase.callLater: a negative (or non-numeric) delay is refused
+        assert callable(f), '%r is not callable' % (f,)
+        assert delay >= 0, '%s is not greater than or equal to 0 seconds' % (delay,)
         self._seq += 1
         dc = DelayedCall(self.sim.now + delay, f, a, kw, self._cancel, self._reset,
                          seconds=self.seconds)
